@@ -344,6 +344,39 @@ func (c *caseRun) step(inforce map[string]int64, txs []*txSpec, vs []verdict) {
 		c.dead = true
 		return
 	}
+	if c.path == "app" {
+		// the application does not tell which plugin call belongs to which transaction: the
+		// replica attributed them in order; a request the precompile turns away before it reaches
+		// the plugin (payload names another account than the transaction's sender) shifts that
+		// order. Attribute each call to the next executed transaction naming the account it saw.
+		var calls []cbObs
+		for i := range oa.Txs {
+			calls = append(calls, oa.Txs[i].Callbacks...)
+		}
+		assign := make([][]cbObs, len(oa.Txs))
+		cur, okAll := 0, true
+		for _, cb := range calls {
+			j := -1
+			for i := cur; i < len(txs); i++ {
+				if oa.Txs[i].Executed && txs[i].PayloadFrom == cb.From {
+					j = i
+					break
+				}
+			}
+			if j < 0 {
+				okAll = false
+				break
+			}
+			assign[j] = append(assign[j], cb)
+			cur = j + 1
+		}
+		if okAll {
+			for i := range oa.Txs {
+				oa.Txs[i].Callbacks = assign[i]
+			}
+			c.obsA[len(c.obsA)-1] = oa
+		}
+	}
 	// the EVM-level outcome must be what the oracle's nonce model says, else the case cannot be followed
 	for i, v := range vs {
 		if oa.Txs[i].Executed != v.Executed {
